@@ -5,6 +5,16 @@ V = os.path.dirname(os.path.dirname(os.path.abspath(__file__)))
 ids = [json.loads(l)['id'] for l in open(os.path.join(V, 'properties.jsonl'))]
 TECH = 'bounded symbolic execution of the real code (clang IR -> ll2c -> CBMC 6.11 / SAT), counterexamples replayed on a g++ ASan build'
 CLAIMED = {
+    'C05': ('3.C05', 'The size arithmetic of tracked allocation is decided for EVERY 64-bit request size in both the malloc and realloc paths (the accounted size never wraps, requests that do not fit are refused); whole allocations of 0/1/7/8/13 bytes are run through the real detector with family and bookkeeping layout symbolic (block placement, coverage of user+guard+record, all requested bytes usable, clean release); realloc preservation / failure handling are thorough-tier obligations; calloc/strdup/strndup under failure and overflow are decided in check C15. Open known finding KF-C05-2 (failed realloc untracks the block) is excluded and re-demonstrated.',
+            'underlying allocator model; report text builders replaced by their category; 4 hash buckets via hook; realloc obligations only in the thorough tier'),
+    'C06': ('3.C06', 'One tracked block of 0/1/5/8 bytes with symbolic allocating and releasing family, bookkeeping layout, type checking flag, one write of any value at any position of user or guard bytes, and a released address that is the block, an interior address, a foreign address or NULL: the report category (none / non-allocated / mismatch / corruption) equals the reference, the outstanding set is exact, and user bytes are poisoned before release.',
+            'report text builders replaced by their category (text is C14); reporter returns instead of ending the test; 4 hash buckets via hook; wrapper allocators not covered'),
+    'C04': ('3.C04', 'Inductive step on the detector table: from an arbitrary arrangement of up to 3 outstanding records at symbolic addresses (bucket placement and collisions chosen by the solver) one removeNode / getTotalLeaks(period) / clearAllAccounting(period) / full period or stage iteration is compared with a shadow set: exactly the named block goes, totals and enumerations see each in-period block once. Detector-level alloc/free accounting is covered by C05/C06/C07.',
+            '4 hash buckets through the guarded hook CPPUTEST_VERIF_HASH_TABLE_SIZE (73 in production); addresses inside a 32-byte arena'),
+    'C16': ('3.C16', 'The real JUnitTestOutput is driven by the real registry/result callbacks for 1-2 tests; the captured file is parsed by a reference recogniser/decoder of the XML subset in the harness: well-formedness, counts, one testcase per test with name/file/line, skipped/failure markers, decoded message and system-out equal to the originals, sanitised file name. Per obligation 1-2 fields are symbolic (<= 2 bytes over an alphabet containing the XML metacharacters).',
+            'quick tier uses the textbook contract of SimpleString::replace (proved in C13), thorough runs the real one; counters/time concrete'),
+    'C20': ('3.C20', 'printEscaped round trip for every text <= 4 bytes (full byte range) and whole service-message streams of 1-3 tests (pass/fail/ignored patterns) with symbolic group/name/file/message strings over the TeamCity metacharacters are parsed by a reference service-message reader: balanced suites and tests, ignored flag, failure belongs to the open test, every value decodes to the original. Open known finding KF-C20-2 (empty group name) excluded and re-demonstrated.',
+            'strings <= 2 bytes; line numbers 0..63; clock stands still'),
     'C11': ('3.C11', 'The real GccPlatformSpecificRunTestInASeperateProcess / SetTestFailureByStatusCode code is run against symbolic fork/waitpid models: every status word (all signals, exit codes, stop/continue encodings), errno values and EINTR runs up to and past the retry bound (<= 36 wait results) are one formula; failures added, SIGCONT, retry bound and termination are checked against a wait(2) reference. Child path: _exit code != 0 iff failures were added.',
             'kill/_exit/fork/waitpid are recording models; message text emptied in the long-loop group; at most 1-2 non-terminal reports in the 36-result obligations (object limit)'),
     'C15': ('3.C15', 'FailableMemoryAllocator designations (global / at-location, symbolic n, order and locations) followed by allocation histories, checkAll/clear, the C malloc countdown and the tracked strdup/strndup/calloc under symbolic allocation failure are decided against a reference written from the property; one open known finding (KF-C15-2) is excluded by its input predicate and re-demonstrated on every run.',
